@@ -469,6 +469,19 @@ func c15RecCase(c *core.Ctx, id string) {
 			viol("unparseable-record-not-reported", "the record file holds no JSON value of the record's shape, yet neither the load nor the build reported an error")
 		}
 	}
+	// a function target's record whose stamp no longer decodes (bad base64, not a pickle, truncated) is corrupted beyond
+	// doubt as well: a full load - fresh, or the Reload() of a long-lived Project - has to report it
+	if (parts[0] == "rec" || parts[0] == "lrec") && strings.HasPrefix(rel, "targets/") && parsesAsRecord(corrupted) {
+		var rc pj.Record
+		if json.NewDecoder(bytes.NewReader(corrupted)).Decode(&rc) == nil && rc.Stamp != "" {
+			if _, derr := mirrorEnv(rc.Stamp); derr != nil {
+				c.Count("undecodable_stamp_cases", 1)
+				if outcome == "nothing-executed" || outcome == "re-executed" {
+					viol("unparseable-record-not-reported", "the record's stamp does not decode ("+derr.Error()+"), yet neither the load nor the build reported an error")
+				}
+			}
+		}
+	}
 	// (index targets are never executable, so "must have re-executed" is only meaningful after a full load)
 	if (parts[0] == "rec" || parts[0] == "lrec") && (outcome == "nothing-executed" || outcome == "re-executed") {
 		lbl := labelOfRecord(rel)
